@@ -10,6 +10,7 @@ import (
 	"math/rand"
 	"os"
 	"reflect"
+	"strings"
 
 	"github.com/trustbloc/sidetree-go/pkg/api/protocol"
 	"github.com/trustbloc/sidetree-go/pkg/versions/1_0/operationparser"
@@ -240,7 +241,7 @@ func sameOutcome(got, want parseOutcome) bool {
 	g.Error, w.Error = "", ""
 
 	// anchor origins are arbitrary JSON: compare them as JSON
-	ga, wa := digestJSON(g.Ao), digestJSON(w.Ao)
+	ga, wa := digestValue(g.Ao), digestValue(w.Ao)
 	g.Ao, w.Ao = nil, nil
 
 	return reflect.DeepEqual(g, w) && ga == wa
@@ -373,4 +374,99 @@ func parserTrace(args []string) {
 		_ = enc.Encode(map[string]interface{}{"event": "Parse", "op": o, "cfg": cfg, "accepted": got.Accepted,
 			"faithful": faithful, "bad": got.Panicked})
 	}
+}
+
+// ---- SizeLimits.tla: maximum operation size x maximum delta size, for ordinary and expanding deltas ----
+
+type slCase struct {
+	C struct {
+		Type     string `json:"type"`
+		Shape    string `json:"shape"`
+		MaxOp    string `json:"maxOp"`
+		MaxDelta string `json:"maxDelta"`
+	} `json:"c"`
+	Accept bool `json:"accept"`
+}
+
+func sizeLimitsReplay(args []string) {
+	fl := parseFlags(args)
+	seed := int64(fl.int("seed", envInt("VERIF_SEED", 1)))
+	col := newCollector("sizelimits", fl.str("only", ""))
+	conc := newConcretizer(seed)
+	seen := map[string]bool{}
+	first := true
+	accepted := 0
+
+	readTagged(os.Stdin, "CASE", fl.str("tlclog", ""), func(line []byte) {
+		if seen[string(line)] {
+			return
+		}
+
+		seen[string(line)] = true
+
+		var sc slCase
+		if err := json.Unmarshal(line, &sc); err != nil {
+			fatalf("bad case: %v: %.300s", err, line)
+		}
+
+		if first {
+			first = false
+
+			if f := fl.str("first-edge", ""); f != "" {
+				_ = os.WriteFile(f, append(line, '\n'), 0o644)
+			}
+		}
+
+		c := sc.C
+		col.nCases++
+
+		k := fmt.Sprintf("sizelimits:%s:%s:maxOp=%s:maxDelta=%s", c.Type, c.Shape, c.MaxOp, c.MaxDelta)
+		col.kind(k)
+
+		o := ROp{Type: c.Type, Wf: "ok", Reveal: "ok", Sig: "ok", Dhash: true, Dv: "ok", Sfx: true, Delta: Delta{"addkey", 1}, Nu: 1, Nr: 2,
+			Kt: []string{"p256", "ed", "k1"}[col.nCases%3], H: 256, Nuv: "norm"}
+		if c.Shape == "expanding" {
+			o.Dv = "expanding"
+		}
+
+		req, _ := conc.buildRequest(&o, 0)
+
+		// the short spelling of the numbers (the same values: every hash over the canonical form stands)
+		req = []byte(strings.ReplaceAll(string(req), "100000000000000000000", "1e20"))
+
+		var carried struct {
+			Delta map[string]interface{} `json:"delta"`
+		}
+
+		if err := json.Unmarshal(req, &carried); err != nil || carried.Delta == nil {
+			fatalf("sizelimits: request without delta: %v", err)
+		}
+
+		r, d := len(req), len(refJCSSimple(carried.Delta))
+		if (c.Shape == "expanding") != (d > r+1) || (c.Shape == "ordinary" && d >= r-1) {
+			fatalf("sizelimits: %s delta of %d canonical bytes in a request of %d bytes", c.Shape, d, r)
+		}
+
+		val := map[string]int{"R-1": r - 1, "R": r, "R+1": r + 1, "D-1": d - 1, "D": d, "D+1": d + 1}
+
+		p := testProtocol(1)
+		p.MaxOperationSize, p.MaxDeltaSize = uint(val[c.MaxOp]), uint(val[c.MaxDelta])
+
+		_, err := operationparser.New(p).Parse("did:sidetree", req)
+		col.sample(map[string]interface{}{"case": c, "request_bytes": r, "canonical_delta_bytes": d, "accepted": err == nil})
+
+		if err == nil {
+			accepted++
+		}
+
+		if (err == nil) != sc.Accept {
+			col.report(mismatch{Kind: "size-verdict", Key: "size-verdict:" + strings.TrimPrefix(k, "sizelimits:"), Case: c,
+				Detail:   fmt.Sprintf("request of %d bytes, canonical delta of %d bytes, MaxOperationSize %d, MaxDeltaSize %d: %v", r, d, p.MaxOperationSize, p.MaxDeltaSize, err),
+				Expected: map[string]interface{}{"accepted": sc.Accept}, Actual: map[string]interface{}{"accepted": err == nil},
+				Replay: map[string]interface{}{"cmd": append([]string{"sizelimits-replay"}, args...), "stdin": string(line)}})
+		}
+	})
+
+	col.sum.Extra["accepted"] = accepted
+	col.finish()
 }
